@@ -29,6 +29,31 @@ void run_nodesize_1(const vf::args&);
 void run_nodesize_2(const vf::args&);
 void run_nodesize_3(const vf::args&);
 
+// instrumented leaves whose propagation the user decides (propagation_traits specialised below): V = copy | move<<1 | swap<<2
+template <int V>
+struct prop_leaf : vf::probe_raw
+{
+    using vf::probe_raw::probe_raw;
+};
+namespace foonathan
+{
+    namespace memory
+    {
+        template <int V>
+        struct propagation_traits<prop_leaf<V>>
+        {
+            using propagate_on_container_copy_assignment = std::integral_constant<bool, (V & 1) != 0>;
+            using propagate_on_container_move_assignment = std::integral_constant<bool, (V & 2) != 0>;
+            using propagate_on_container_swap            = std::integral_constant<bool, (V & 4) != 0>;
+            template <class AllocReference>
+            static AllocReference select_on_container_copy_construction(const AllocReference& alloc)
+            {
+                return alloc;
+            }
+        };
+    } // namespace memory
+} // namespace foonathan
+
 namespace
 {
     struct val
@@ -488,6 +513,32 @@ namespace
         }
     };
 
+    template <int V>
+    struct prop_leaves
+    {
+        static constexpr const char* suffix = V == 6 ? "-propagate<move,swap>" : V == 1 ? "-propagate<copy>" : V == 4 ? "-propagate<swap>" : "-propagate<none>";
+        // what the user of the allocator asked for: decides which swaps the program may issue
+        static constexpr bool swap_propagates = (V & 4) != 0;
+        prop_leaf<V> L1, L2;
+        prop_leaves(probe_handle h1, probe_handle h2) : L1(h1), L2(h2) {}
+    };
+    template <class L>
+    constexpr auto declared_swap(int) -> decltype(L::swap_propagates)
+    {
+        return L::swap_propagates;
+    }
+    template <class L>
+    constexpr bool declared_swap(long)
+    {
+        return true; // the library's default for every other leaf type
+    }
+    template <int V>
+    struct prop_alloc_of
+    {
+        template <class T>
+        using type = std_allocator<T, prop_leaf<V>>;
+    };
+
     template <class K, bool Erased, class Leaves = stateful_leaves>
     void program_kind(const args& a)
     {
@@ -501,6 +552,9 @@ namespace
             run_case(kind, c, [&] {
                 auto r  = case_rng(a.seed, a.group, kind, c);
                 auto h1 = make_probe("leaf1", false, "C10"), h2 = make_probe("leaf2", false, "C10");
+                // behind the type erasure the same observations are those of C09 (allocator_storage in type-erased form releases each block
+                // to the allocator it came from)
+                also_scope as(Erased ? "C09" : "", "C10");
                 {
                     Leaves lv(h1, h2);
                     auto&  L1    = lv.L1;
@@ -598,7 +652,8 @@ namespace
                         {
                             op("swap(c1, c2)");
                             // with non-propagating unequal allocators swap is undefined: only issued if propagation is on or allocators are equal
-                            if (std::allocator_traits<AL>::propagate_on_container_swap::value || c1->get_allocator() == c2->get_allocator())
+                            // (propagation as the allocator's author declared it; for the library's own defaults that is "on")
+                            if (declared_swap<Leaves>(0) || c1->get_allocator() == c2->get_allocator())
                             {
                                 using std::swap;
                                 swap(*c1, *c2);
@@ -833,6 +888,21 @@ void run_programs_erased(const vf::args& a)
     program_kind<KS::set_k, true, stateless_leaves>(a);
     program_kind<KS::vector_k, true, stateless_leaves>(a);
     program_kind<KS::umap_k, true, stateless_leaves>(a);
+    {
+        using K6 = kinds<prop_alloc_of<6>::type>;
+        program_kind<K6::list_k, false, prop_leaves<6>>(a);
+        program_kind<K6::vector_k, false, prop_leaves<6>>(a);
+        program_kind<K6::map_k, false, prop_leaves<6>>(a);
+        using K1 = kinds<prop_alloc_of<1>::type>;
+        program_kind<K1::list_k, false, prop_leaves<1>>(a);
+        program_kind<K1::uset_k, false, prop_leaves<1>>(a);
+        using K4 = kinds<prop_alloc_of<4>::type>;
+        program_kind<K4::set_k, false, prop_leaves<4>>(a);
+        program_kind<K4::deque_k, false, prop_leaves<4>>(a);
+        using K0 = kinds<prop_alloc_of<0>::type>;
+        program_kind<K0::list_k, false, prop_leaves<0>>(a);
+        program_kind<K0::vector_k, false, prop_leaves<0>>(a);
+    }
     using KC = kinds<comp_alloc>;
     program_kind<KC::list_k, false, composed_leaves>(a);
     program_kind<KC::vector_k, false, composed_leaves>(a);
